@@ -11,7 +11,12 @@
 #include "vf.h"
 #include "ref.h"
 
-json_t *vf_parse(unsigned call_no, const char *buf, size_t len, size_t flags) { return NULL; }
+/* JSON text handed to a setter: the parse result is an arbitrary small object (or NULL) */
+static const char *const palpha[] = { "a", "z" };
+json_t *vf_parse(unsigned call_no, const char *buf, size_t len, size_t flags)
+{
+	return nondet_bool() ? vj_havoc_object(palpha, 2, 0) : NULL;
+}
 void vf_dump_hook(unsigned call_no, const json_t *tree, size_t flags, const char *text) { }
 
 #ifndef FAULT_K
@@ -97,6 +102,23 @@ int main(void)
 		r = jwt_builder_header_set(b, &jv);
 		if (r != JWT_VALUE_ERR_NONE)
 			PROP(vf_faulted, "C17: a header is refused only under allocation failure");
+		/* JSON-typed values: a named member and a whole-object merge (the reference handed to
+		 * jansson is consumed by it even when it fails: no second release) */
+		memset(&jv, 0, sizeof(jv));
+		jv.type = JWT_VALUE_JSON;
+		jv.name = "j";
+		jv.json_val = "{}";
+		r = jwt_builder_claim_set(b, &jv);
+		if (r != JWT_VALUE_ERR_NONE)
+			PROP(r == JWT_VALUE_ERR_INVALID, "C17: a JSON claim is refused only as INVALID (malformed text or allocation failure)");
+		memset(&jv, 0, sizeof(jv));
+		jv.type = JWT_VALUE_JSON;
+		jv.name = NULL;
+		jv.replace = 1;
+		jv.json_val = "{}";
+		r = jwt_builder_header_set(b, &jv);
+		if (r != JWT_VALUE_ERR_NONE)
+			PROP(r == JWT_VALUE_ERR_INVALID, "C17: a whole-object JSON set is refused only as INVALID");
 		PROP(jwt_builder_enable_iat(b, 0) == 1, "C17: enable_iat reports the previous setting (on by default)");
 		PROP(jwt_builder_time_offset(b, JWT_CLAIM_EXP, 60) == 0, "C17: time_offset needs no memory");
 		jwt_builder_free(b);
